@@ -779,6 +779,13 @@ def oracle_c03(ctx, focus):
         inputs.append("".join(rng.choice(words) for _ in range(300)))
         for _ in range(300 if ctx.tier != "thorough" else 5000):
             inputs.append(streams.random_text(rng, lang, 1 + rng.below(8)))
+        # multiplier stacking: scale words piled on a number inside ONE token (glued or hyphenated) or as separate words —
+        # such compounds can parse to far more than 15 digits
+        scales = [w for w in words if re.search(r"illi|ilj|ilh|ilh|thousand|tausend|duizend|^mil$|^mille$|^mila$|hundred|hundert|honderd|^cent|^cem$|^cien", w)]
+        heads = [w for w in words if w.isalpha() and len(w) < 9][:: max(1, len(words) // 60)]
+        for _ in range(500 if ctx.tier != "thorough" else 6000):
+            parts = [rng.choice(heads)] + [rng.choice(scales) for _ in range(1 + rng.below(5))] if scales else [rng.choice(heads)]
+            inputs.append(rng.choice(["", "-", " "]).join(parts))
         # many spoken zeros before / after / between numbers (length and emptiness predicates count them)
         bank = phrase_bank(ctx, lang)
         zw = {"en": "zero", "fr": "zéro", "es": "cero", "pt": "zero", "it": "zero", "de": "null", "nl": "nul"}[lang]
@@ -1242,6 +1249,20 @@ def oracle_c11(ctx, focus):
                 reqs += ["occ\t%s\t%s\t%s" % (lang, th, esc(t)), "occ\t%s\t%s\t%s" % (lang, th, esc(r)),
                          "val\t%s\t%s" % (lang, esc(t)), "val\t%s\t%s" % (lang, esc(r))]
                 meta.append((t, r))
+        # every linking expression of the language — also those of several words — between two small numbers, in every
+        # casing (the `FIVE PLUS SIX` family, exhaustively over the vocabulary)
+        import vocab as _vocab
+        vp = os.path.join(t2nlib.REPO, "src", "lang", lang, "vocabulary.rs")
+        link_all = sorted(set(_vocab.LIT.findall(open(vp, encoding="utf-8").read()))) if os.path.exists(vp) else []
+        smalls = [p_ for p_ in bank if " " not in p_ and "-" not in p_][:6] or bank[:3]
+        for lw in link_all:
+            a_, b_ = rng.choice(smalls), rng.choice(smalls)
+            t = ("%s %s %s" % (a_, lw, b_)).lower()
+            for r in recasings(rng, t):
+                for th in (t2nlib.thr_bits(10.0), t2nlib.thr_bits(100.0)):
+                    reqs += ["occ\t%s\t%s\t%s" % (lang, th, esc(t)), "occ\t%s\t%s\t%s" % (lang, th, esc(r)),
+                             "val\t%s\t%s" % (lang, esc(t)), "val\t%s\t%s" % (lang, esc(r))]
+                    meta.append((t, r))
         # letters whose lowercase has another UTF-8 length (or another number of chars) than the letter itself, in the
         # ordinary words around the numbers: the text and its lowercase must give the same occurrences
         exotic = ["\u0130zmir", "STRA\u1e9eE", "\u212a", "\u2126", "\u212b", "\u023a", "\u023e", "\u01c5", "GRO\u1e9e", "\u0130"]
@@ -1361,6 +1382,14 @@ def oracle_c14(ctx, focus):
         for ph in bank[:: max(1, len(bank) // 60)]:
             for w in ph.split(" "):
                 lines.append("apply\t%s\t%s\t|0|0|0|-" % (lang, esc(w)))
+        # the longest spellings as ordinals in every inflection, each several times in the mix: anything memoised per
+        # interpreter under too coarse a key shows up as history dependence
+        ordmax, ninfl = ORD_SPEC[lang]
+        lo = ["gen\tord\t%s\t%d\t0\t%d" % (lang, r, i) for r in long_numbers(ctx, lang, limit=ordmax + 1)[:12] for i in range(ninfl)]
+        for (g, ph, e) in _spec_cases(ctx, "c14o" + lang, lo):
+            for _k in range(2):
+                lines.append("val\t%s\t%s" % (lang, esc(ph)))
+                lines.append("text\t%s\t%s\t%s" % (lang, THR0, esc("x " + ph + " y")))
     reqp = ctx.path("c14.req")
     with open(reqp, "w", encoding="utf-8") as f:
         for l in lines:
@@ -1553,7 +1582,12 @@ def ws_substitute(rng, s):
             j = i
             while j < len(s) and s[j].isspace():
                 j += 1
-            out.append("".join(rng.choice(WS_CHARS) for _ in range(1 + rng.below(3))))
+            if rng.chance(1, 40):
+                # a very long run (hundreds of characters / bytes): the amount of whitespace must not matter either
+                c = rng.choice(WS_CHARS)
+                out.append(c * rng.choice([257, 300, 129, 86, 1000]))
+            else:
+                out.append("".join(rng.choice(WS_CHARS) for _ in range(1 + rng.below(3))))
             i = j
         else:
             out.append(s[i])
@@ -1631,6 +1665,12 @@ def oracle_c18(ctx, focus):
     numw = ["one", "eight", "twelve", "twenty", "hundred", "thousand", "first", "third", "twenty-one", "zero", "fifth", "nought", "ninety"]
     plain = ["cat", "x", "oscar", "the", "and", "is", "s", "point", "a"]
     punct = [",", ".", ";", "!", "-", "(", "...", ":"]
+    # every alphabetic string literal of the English module that is not a number word is a possible neighbour too
+    # (a special case for one particular word next to `o` would name that word in the source)
+    import vocab as _vocab
+    lits = [w for w in _vocab.source_literals("en") if w.isalpha() and w.islower() and 1 < len(w) < 12]
+    lit_pr = run_impl(ctx, "c18l", ["apply\ten\t%s\t|0|0|0|-" % esc(w) for w in lits])
+    lit_plain = [w for w, a in zip(lits, lit_pr) if not a.startswith("OK")]
     neigh = numw + plain + punct + ["o", "O", ""]
     wss = [" ", "  ", " ", "\t", " ", "\n"]
     texts = []
@@ -1659,6 +1699,11 @@ def oracle_c18(ctx, focus):
                 texts.append([num, link, "o" + sep if sep in punct and rng.chance(1, 2) else "o", "" if sep in punct and False else sep, sm])
                 texts.append([sm + ("," if rng.chance(1, 2) else ""), num, link, "o"])
                 texts.append([sm, sep, num, link, "o", sep, rng.choice(smalls)])
+    for w in lit_plain:
+        for num in ("five", "twelve", "twenty"):
+            texts.append([num, "o", w])
+            texts.append([w, "o", num])
+            texts.append([num, "o", w, "x"])
     for _ in range(1500 if ctx.tier != "thorough" else 30000):
         k = 2 + rng.below(6)
         seq = [rng.choice(neigh + ["o", "o"]) for _ in range(k)]
